@@ -13,14 +13,14 @@ package criteria_ordering
 //@   property C15 C16
 //@   requires model.distinctCriteria(params.Criteria) && model.validParams(*listener, params.MethodParameters) && model.coversAll(*listener, params.MethodParameters, params.Criteria)
 //@   ensures [permutation] result != nil && fresh(result) && fresh(*result) && model.rearranged(*result, params.Criteria)
-//@   ensures [C15 C16 the_listeners_ascending_ranking] forall k int :: 0 <= k && k < len(*result) ==> (*result)[k].Id == model.rankedId(*listener, params, k)
+//@   ensures [the_listeners_ascending_ranking] forall k int :: 0 <= k && k < len(*result) ==> (*result)[k].Id == model.rankedId(*listener, params, k)
 //@   ensures [weakest_first] forall i int, j int :: 0 <= i && i < j && j < len(*result) ==> model.imp(*listener, params, (*result)[i].Id) <= model.imp(*listener, params, (*result)[j].Id)
 
 //@ func (*StrongestCriteriaOrderingResolver).OrderCriteria
 //@   property C15 C16
 //@   requires model.distinctCriteria(params.Criteria) && model.validParams(*listener, params.MethodParameters) && model.coversAll(*listener, params.MethodParameters, params.Criteria)
 //@   ensures [permutation] result != nil && fresh(result) && fresh(*result) && model.rearranged(*result, params.Criteria)
-//@   ensures [C15 C16 exact_reverse_of_weakest] forall k int :: 0 <= k && k < len(*result) ==> (*result)[k].Id == model.rankedId(*listener, params, len(*result) - 1 - k)
+//@   ensures [exact_reverse_of_weakest] forall k int :: 0 <= k && k < len(*result) ==> (*result)[k].Id == model.rankedId(*listener, params, len(*result) - 1 - k)
 //@   ensures [strongest_first] forall i int, j int :: 0 <= i && i < j && j < len(*result) ==> model.imp(*listener, params, (*result)[i].Id) >= model.imp(*listener, params, (*result)[j].Id)
 //@   loop 1 invariant [ctx] fresh(descending) && len(descending) == totalCount && totalCount == len(*ascending) && model.rearranged(*ascending, params.Criteria)
 //@   loop 1 invariant [reversed] forall k int :: totalCount - iter <= k && k < totalCount ==> descending[k] == (*ascending)[totalCount - 1 - k]
@@ -55,7 +55,7 @@ package criteria_ordering
 
 // Parse: the ordering is the one the request names; none named stays empty (the first registered resolver is then taken)
 //@ func Parse
-//@   property C15 C16 C20 C07 C09
+//@   property C15 C16 C20 C07 C09 C01
 //@   ensures [as_requested_empty_when_absent] fresh(result) && result.Ordering == (decoded_has(*props, "Ordering") ? decoded_str(*props, "Ordering") : "")
 
 // the ordering named in the request (the first registered one when none is named); unknown names are rejected
@@ -63,7 +63,7 @@ package criteria_ordering
 //@ ifacemethod CriteriaOrderingResolver.Identifier
 //@   ensures result == resolverName(self)
 //@ func FetchOrderingResolver
-//@   property C15 C16 C20
+//@   property C15 C16 C20 C01 C07 C09
 //@   ensures [by_name_default_first] len(resolver.Ordering) == 0 ? result == (*resolvers)[0]
 //@             : (exists k int :: 0 <= k && k < len(*resolvers) && result == (*resolvers)[k] && resolverName(result) == resolver.Ordering
 //@                && forall j int :: 0 <= j && j < k ==> resolverName((*resolvers)[j]) != resolver.Ordering)
@@ -74,9 +74,11 @@ package criteria_ordering
 //@ wire CriteriaOrdering
 //@   property C01 C15 C20
 //@   json Ordering=ordering
+//@   gotypes Ordering=string
 //@ wire randomProps
 //@   property C01 C15 C20
 //@   json RandomSeed=randomSeed
+//@   gotypes RandomSeed=int64
 
 // ---- registered names (what a request must say to select this object; what error messages list)
 //@ func (*RandomCriteriaOrderingResolver).Identifier
